@@ -472,8 +472,7 @@ theorem evalRuleM_eq_of_simple (r : Rule) (h : simpleRule r = true) (lk : String
     simpa using h.1
   unfold evalRuleM bodyEnvsM evalRuleLk bodyEnvs headOf headOfSpec
   simp only [hc, buildCmps, pass1, List.map_nil, List.nil_append, List.filter_nil, List.all_nil, List.any_nil,
-    Bool.false_eq_true, if_false, List.isEmpty_nil, Bool.and_true, if_true, pushPlan_nil, withFilters,
-    evalPosF_trivial, applyCols_nil, optMapM_some_id, Option.isSome_none, filter_const_true,
+    Bool.false_eq_true, if_false, List.isEmpty_nil, Bool.and_true, if_true, applyCols_nil, optMapM_some_id, Option.isSome_none, filter_const_true,
     specCmps, List.length_nil, map_id_env, hna]
 
 
